@@ -297,7 +297,7 @@ func c14GenDecor(t *rapid.T, label string) *c14Decor {
 		// a panic value printed on one very long line (longer than the usual I/O buffer sizes)
 		d.preamble = append(d.preamble, "panic: "+strings.Repeat("big value ", rapid.SampledFrom([]int{410, 6553, 6554, 7000, 30000}).Draw(t, label+"hugeWords")))
 	}
-	argStyle := rapid.IntRange(0, 3).Draw(t, label+"argStyle")
+	argStyle := rapid.IntRange(0, 5).Draw(t, label+"argStyle")
 	hugeArgs := rapid.IntRange(0, 29).Draw(t, label+"hugeArgs") == 0
 	d.args = func(i int) string {
 		if hugeArgs && i == 2 {
@@ -310,6 +310,16 @@ func c14GenDecor(t *rapid.T, label string) *c14Decor {
 			return fmt.Sprintf("(0x%x, {0x%x?, 0x1}, 0xc000%04x)", i, i*7, i)
 		case 2:
 			return "({0xc000012345, 0x1d}, (0x1, 0x2), \"" + label + "\")"
+		case 4:
+			// the runtime's rendering of elided arguments (it uses it for inlined calls, whose location
+			// lines carry no pc; here the location line does, and the frame counts like any other)
+			return "(...)"
+		case 5:
+			// argument text that merely ends like that, on some frames only
+			if i%2 == 1 {
+				return []string{"(0x0, (...)", "(0x1, " + label + "(...)", "(...)"}[i/2%3]
+			}
+			return fmt.Sprintf("(0x%x, ...)", i)
 		}
 		return fmt.Sprintf("(0x%x?)", i)
 	}
